@@ -65,6 +65,7 @@ the following `next()` calls enumerate the remaining unset bits.  The iterators 
 import Sds.Proofs.Glue4
 import Sds.Proofs.Glue5
 import Sds.Proofs.Glue
+import Sds.Proofs.GenEqIdx
 
 namespace Sds.C03
 open Sds Outcome
@@ -549,5 +550,20 @@ example : RL.RunsFrom 0 [] ∧ RL.RunsFrom 0 [(2 ^ 64 - 2, 1)] ∧ RL.runBits []
   refine ⟨trivial, ⟨by decide, by decide, by decide, trivial⟩, by decide⟩
 example : (RLBuilder.encodeUnits 23 (2 ^ 64 - 1)).length = 22 ∧ (RLBuilder.encodeUnits 23 0).length = 1 := by
   decide
+
+/-! **`SampleIndex::{div_round_up, parameters, range}` as translated from the source on this run**
+(`Generated/FnsIdx.lean`): the overflow-free rounding introduced by the repair of F8, the two-step parameter choice, and
+the sample lookup with its `+ 1` on the upper end.  For every universe and value below 2^64 the code as it is NOW is the
+model function the block-lookup theorems above are about. -/
+theorem sample_index_as_translated_from_source (m : Mode) (s : SampleIndex) (values univ value n : Nat)
+    (hu : univ < U64) (hv : value < U64) :
+    Generated.gen_SampleIndex_div_round_up m value n = SampleIndex.divRoundUpSafe value n ∧
+    Generated.gen_SampleIndex_parameters m values univ = SampleIndex.parameters m values univ ∧
+    (value / s.divisor + 1 < U64 → s.numValues < U64 → Generated.gen_SampleIndex_range m s value = s.range value) :=
+  ⟨GenEq.sample_div_round_up_eq m value n hv, GenEq.sample_parameters_eq m values univ hu,
+   fun h1 h2 => GenEq.sample_range_eq m s value h1 h2⟩
+
+/-- the translated `parameters` at a universe of 2^63 with 9 values (the input of finding F8) does not overflow -/
+example : Generated.gen_SampleIndex_parameters .checked 9 (2 ^ 63) = ok (2, 2 ^ 62) := by decide
 
 end Sds.C03
